@@ -427,6 +427,9 @@ func sumOracles(run *gen.SumRun) []sumFail {
 		}
 	}
 	for i, r := range run.Results {
+		if sc.Par != nil && secSeen >= 0 {
+			continue // overlapping lookups: the order of steps is not the order of events
+		}
 		if r.Class == "security" && (secSeen < 0 || secSeen > i) {
 			add("security-reports-both-heads", "step %d returned ErrSecurity but no SecurityError callback happened before", i)
 		}
